@@ -386,22 +386,67 @@ func checkC12(w *World, r *Report) {
 				if !calleeIs(s, "x/cfevesting/types.DurationFromUnits") {
 					continue
 				}
-				nImp++
 				a := s.Common().Args
-				u, okU := suffixOf(mkTr().Origins(a[0]), units)
-				v, okV := suffixOf(mkTr().Origins(a[1]), periods)
-				r.Check(okU && okV && u == v+"Unit", "C12.paired", fmt.Sprintf("import: %s converted with its own unit", v), w.Pos(s.Instr.Pos()), "DurationFromUnits("+u+", "+v+")", fmt.Sprintf("a period is converted with the unit of another one on import (value %q, unit %q): an exported state whose two periods are rendered in different units comes back with another period", v, u))
-				// where the result is stored
-				for _, f2 := range w.ProdFuncs() {
-					if _, on := cg.Reach(ro.INIT["cfevesting"])[f2]; !on {
-						continue
-					}
-					for _, fs := range FieldStores(f2) {
-						if !namedIs(fs.Struct, "x/cfevesting/types", "VestingType") || (fs.Field != "LockupPeriod" && fs.Field != "VestingPeriod") {
+				// the conversion may sit in a helper that is handed (unit, value): one instance per call of the helper on
+				// the import tree, the arguments traced with the helper's parameters bound to that call
+				type inst struct {
+					ctx *tctx
+					via *ssa.CallCommon
+				}
+				insts := []inst{{&tctx{fn: fn}, nil}}
+				onlyParams := func(o *Origin) bool {
+					n := 0
+					for _, l := range o.Leaves {
+						if l.Kind == "const" {
 							continue
 						}
-						o := mkTr().Origins(fs.Store.Val)
-						if o.Calls[siteCall(s)] {
+						if p, isP := l.V.(*ssa.Parameter); !(l.Kind == "param" && isP && p.Parent() == fn && l.Path == "") {
+							return false
+						}
+						n++
+					}
+					return n > 0
+				}
+				t0 := mkTr()
+				t0.Lift = 0
+				if onlyParams(t0.Origins(a[0])) && onlyParams(t0.Origins(a[1])) {
+					insts = nil
+					for _, cs := range cg.Callers[fn] {
+						if _, on := cg.Reach(ro.INIT["cfevesting"])[cs.Caller]; !on || cs.Common().IsInvoke() || cs.Common().StaticCallee() != fn {
+							continue
+						}
+						insts = append(insts, inst{&tctx{parent: &tctx{fn: cs.Caller}, fn: fn, call: cs.Common(), depth: 1}, cs.Common()})
+					}
+				}
+				for _, in := range insts {
+					nImp++
+					trace := func(v ssa.Value) *Origin {
+						st := &tstate{t: mkTr(), o: newOrigin(), seen: map[string]bool{}}
+						st.trace(v, nil, in.ctx)
+						return st.o
+					}
+					u, okU := suffixOf(trace(a[0]), units)
+					v, okV := suffixOf(trace(a[1]), periods)
+					r.Check(okU && okV && u == v+"Unit", "C12.paired", fmt.Sprintf("import: %s converted with its own unit", v), w.Pos(s.Instr.Pos()), "DurationFromUnits("+u+", "+v+")", fmt.Sprintf("a period is converted with the unit of another one on import (value %q, unit %q): an exported state whose two periods are rendered in different units comes back with another period", v, u))
+					// where the result is stored
+					for _, f2 := range w.ProdFuncs() {
+						if _, on := cg.Reach(ro.INIT["cfevesting"])[f2]; !on {
+							continue
+						}
+						for _, fs := range FieldStores(f2) {
+							if !namedIs(fs.Struct, "x/cfevesting/types", "VestingType") || (fs.Field != "LockupPeriod" && fs.Field != "VestingPeriod") {
+								continue
+							}
+							o := mkTr().Origins(fs.Store.Val)
+							if !o.Calls[siteCall(s)] {
+								continue
+							}
+							if in.via != nil {
+								// the instance whose result this store receives: the helper call the conversion was reached through
+								if c := o.CallCtx[siteCall(s)]; c == nil || c.call != in.via {
+									continue
+								}
+							}
 							r.Check(fs.Field == v, "C12.paired", fmt.Sprintf("import: the converted %s is stored as %s", v, fs.Field), w.Pos(fs.Store.Pos()), "same period", "the converted "+v+" is stored as "+fs.Field)
 						}
 					}
